@@ -86,7 +86,11 @@ def logps_with_sensitivity(d, xs, cond=None):
     """For each x of xs: log_prob(x) and the max change of log_prob over the one-ulp neighbours of x; ONE batched call."""
     jnp = lv.lib()["jnp"]
     stacks = [_nbr_stack(x) for x in xs]
-    lps = np.asarray(d.log_prob(jnp.asarray(np.concatenate(stacks)), cond), dtype=float)
+    allx = np.concatenate(stacks)
+    rows = PAD * len(stacks[0]) if len(xs) <= PAD else len(allx)   # fixed batch shape: XLA's per-op cache hits across cases
+    if len(allx) < rows:
+        allx = np.concatenate([allx, np.repeat(allx[:1], rows - len(allx), axis=0)])
+    lps = np.asarray(d.log_prob(jnp.asarray(allx), cond), dtype=float)
     vals, sens, pos = [], [], 0
     for st in stacks:
         blk = lps[pos:pos + len(st)]
@@ -104,12 +108,22 @@ def oracle_logps(d, xs, cond=None):
     methods (vmapped over the points); also returns the inverse log-dets."""
     L = lv.lib()
     jnp, jax = L["jnp"], L["jax"]
-    X = jnp.asarray(np.stack([np.asarray(x, dtype=float) for x in xs]))
+    X = _pad_rows(np.stack([np.asarray(x, dtype=float) for x in xs]))
+    X = jnp.asarray(X)
     bc = cond if d.bijection.cond_shape is not None else None
     dc = cond if d.base_dist.cond_shape is not None else None
     Z, LD = jax.vmap(lambda x: d.bijection.inverse_and_log_det(x, bc))(X)
     rhs = np.asarray(d.base_dist.log_prob(Z, dc), dtype=float) + np.asarray(LD, dtype=float)
-    return [_to_minf(float(v)) for v in rhs], [float(v) for v in np.asarray(LD, dtype=float)]
+    return [_to_minf(float(v)) for v in rhs[:len(xs)]], [float(v) for v in np.asarray(LD, dtype=float)[:len(xs)]]
+
+
+PAD = 12
+
+
+def _pad_rows(X):
+    if len(X) < PAD:
+        X = np.concatenate([X, np.repeat(X[:1], PAD - len(X), axis=0)])
+    return X
 
 
 def _tol(v, sens, rel=1e-9):
@@ -157,6 +171,13 @@ def _case(spec, **kw):
 
 
 # ------------------------------------------------------------------ U1..U3 on generated distributions
+def _viol(ctx, unit, what, spec, errs, msg, expected, observed, broken, **case):
+    unit.disagreements += (0 if errs else 1)
+    ctx.violation(sig=f"{what}:{'oracle' if errs else 'model-mismatch'}", what="; ".join(errs) if errs else msg,
+                  case=_case(spec, unit=what, **case), found_input=bool(errs), unit=unit.name, expected=expected, observed=observed,
+                  broken=broken, reproducer="cd /verif && ./check C03 --replay <this file>")
+
+
 def unit_tie(ctx):
     L = lv.lib()
     jnp, jr = L["jnp"], L["jr"]
@@ -171,9 +192,9 @@ def unit_tie(ctx):
                                "merge_transforms, and merged vs original object; non-trivial = nesting >= 2")
     uo = ctx.unit("identities-oracle", "the three identities of the statement recomputed through public methods on the generated "
                                        "distributions (implementation only)")
-    n_dists = 36 if ctx.quick else 400
+    n_dists = 20 if ctx.quick else 300
     shapes = [(), (1,), (2,), (3,)]
-    jobs, reqs = [], []
+    work, reqs = [], []
     for i in range(n_dists):
         shape = shapes[i % len(shapes)]
         spec = ds.gen_dist_spec(rng, shape, depth=int(rng.integers(1, 4)), nest=int(rng.integers(1, 4)))
@@ -184,223 +205,284 @@ def unit_tie(ctx):
             ctx.notes.append(f"generated spec outside the serialiser: {e}")
             continue
         t = " ".join(term)
-        for kind, x in _xs_for(d, rng, ctx.quick):
-            jobs.append(("logp", spec, d, t, kind, x))
+        xs = _xs_for(d, rng, ctx.quick)
+        if ctx.quick and len(xs) > PAD:   # keep every kind represented
+            xs = [xs[int(j)] for j in sorted(rng.choice(len(xs), size=PAD, replace=False))]
+        keys = [int(rng.integers(0, 2**31)) for _ in range(2 if ctx.quick else 5)]
+        zs = [ds.base_draw(d, jr.PRNGKey(k)) for k in keys]
+        first = len(reqs)
+        for _, x in xs:
             reqs.append(f"logp {hexlist(np.ravel(x))} {t}")
-            jobs.append(("mlogp", spec, d, t, kind, x))
             reqs.append(f"mlogp {hexlist(np.ravel(x))} {t}")
-        for _ in range(2 if ctx.quick else 5):
-            kint = int(rng.integers(0, 2**31))
-            z = ds.base_draw(d, jr.PRNGKey(kint))
-            jobs.append(("samplelp", spec, d, t, kint, z))
+        for z in zs:
             reqs.append(f"samplelp {hexlist(np.ravel(z))} {t}")
-            jobs.append(("msamplelp", spec, d, t, kint, z))
             reqs.append(f"msamplelp {hexlist(np.ravel(z))} {t}")
-        jobs.append(("mstruct", spec, d, t, None, None))
         reqs.append(f"mstruct {t}")
+        work.append((spec, d, t, xs, keys, zs, first))
     outs = ctx.model(reqs, "dist")
-    merged_cache = {}
-    for (what, spec, d, t, a, b), line in zip(jobs, outs):
+    for spec, d, t, xs, keys, zs, first in work:
         nest = len(spec["layers"]) + (1 if spec["base"] in ("normal", "gumbel") else 0)
-        if id(d) not in merged_cache:
-            merged_cache[id(d)] = d.merge_transforms()
-        dm = merged_cache[id(d)]
-        if line.startswith("ERR"):
-            ctx.violation(sig=f"driver:{what}", what=f"model driver error {line}", case=_case(spec, request=what), found_input=False, unit=u1.name)
+        shp = ds.shape_of_term(t.split(" "))
+        dm = d.merge_transforms()
+        pts = [x for _, x in xs]
+        pos = first
+        bad_driver = [o for o in outs[first:first + 2 * len(xs) + 2 * len(zs) + 1] if o.startswith("ERR")]
+        if bad_driver:
+            ctx.violation(sig="driver", what=f"model driver error {bad_driver[0]} on {shp}", case=_case(spec), found_input=False, unit=u1.name)
             continue
-        if what in ("logp", "mlogp"):
-            kind, x = a, b
-            obj = d if what == "logp" else dm
-            unit = u1 if what == "logp" else u3
-            mv = _to_minf(fparse(line))
-            iv, sens = logp_with_sensitivity(obj, x)
-            z, ld = L["unwrap"](d.bijection).inverse_and_log_det(jnp.asarray(x))
-            key = (what, str(spec), [fhex(v) for v in np.ravel(x)])
-            unit.count(key, nontrivial=(math.isfinite(iv) and abs(float(ld)) > 1e-3) if what == "logp" else nest >= 2, tag=f"{kind}:nest{nest}")
-            if len(unit.hashes) % 60 == 1:
-                ctx.sample(dict(unit=unit.name, term=ds.shape_of_term(t.split(" ")), x=np.ravel(x).tolist(), model=mv, implementation=iv))
-            ok = _close(mv, iv, _tol(iv, sens))
+        # ---- one jitted evaluation per object (original and merged)
+        X = _pad_rows(np.stack(pts))
+        lpN, rhs_, LD, S, LPS, S2, P, LPSN = eval_dist(d, X, None, keys)
+        lpNm, _, _, Sm, LPSm, S2m, Pm, LPSNm = eval_dist(dm, X, None, keys)
+        for i, (kind, x) in enumerate(xs):
+            v, se, r, ld, vm = float(lpN[i, 0]), _sens(lpN[i]), _to_minf(float(rhs_[i])), float(LD[i]), float(lpNm[i, 0])
+            mv, mvm = _to_minf(fparse(outs[pos])), _to_minf(fparse(outs[pos + 1]))
+            pos += 2
+            xh = [fhex(q) for q in np.ravel(x)]
+            key = (str(spec), xh)
+            u1.count(("logp",) + key, nontrivial=math.isfinite(v) and abs(ld) > 1e-3, tag=f"{kind}:nest{nest}")
+            u3.count(("mlogp",) + key, nontrivial=nest >= 2, tag=f"logp:{kind}:nest{nest}")
+            uo.count(("id1",) + key, nontrivial=math.isfinite(v), tag="logp=base(inverse)+ld")
+            uo.count(("merge",) + key, nontrivial=nest >= 2, tag="merge_transforms=original")
+            if len(u1.hashes) % 60 == 1:
+                ctx.sample(dict(unit=u1.name, term=shp, x=np.ravel(x).tolist(), model=mv, implementation=v))
+            tol = _tol(v, se)
             errs = []
-            if what == "logp":
-                lhs, rhs = oracle_logp(d, x)
-                uo.count(key, nontrivial=math.isfinite(lhs), tag="logp=base(inverse)+ld")
-                if not _close(lhs, rhs, _tol(lhs, sens, 1e-9)):
-                    errs.append(f"log_prob(x) = {lhs!r} but base_dist.log_prob(bijection.inverse(x)) + inverse log-det = {rhs!r}")
-            else:
-                orig = float(d.log_prob(jnp.asarray(x)))
-                uo.count(key, nontrivial=nest >= 2, tag="merge_transforms=original")
-                if not _close(iv, orig, _tol(orig, sens, 1e-9)):
-                    errs.append(f"merge_transforms().log_prob(x) = {iv!r} but the original log_prob(x) = {orig!r}")
-            if not ok or errs:
-                unit.disagreements += (not ok)
-                ctx.violation(
-                    sig=f"{what}:{'oracle' if errs else 'model-mismatch'}",
-                    what="; ".join(errs) if errs else f"{what}: model {mv!r} != implementation {iv!r} on {ds.shape_of_term(t.split(' '))} at x={np.ravel(x).tolist()}",
-                    case=_case(spec, unit=what, x=[fhex(v) for v in np.ravel(x)]), found_input=bool(errs), unit=unit.name,
-                    expected=mv, observed=iv, broken="correspondence with Model/Dist.v logp / theorem C03_logp_transformed" if what == "logp"
-                    else "correspondence with Model/Dist.v merge_transforms / theorem C03_merge_transforms_same",
-                    reproducer="cd /verif && ./check C03 --replay <this file>")
-        elif what in ("samplelp", "msamplelp"):
-            kint, z = a, b
-            obj = d if what == "samplelp" else dm
-            unit = u2 if what == "samplelp" else u3
-            xs_m, lp_m = line.split(" ")
-            xm = np.array([fparse(v) for v in xs_m.split(",")], dtype=float)
-            lpm = fparse(lp_m)
-            key_ = jr.PRNGKey(kint)
-            xi, lpi = obj.sample_and_log_prob(key_)
-            xi, lpi = np.asarray(xi, dtype=float), float(lpi)
-            xs = np.asarray(obj.sample(key_), dtype=float)
-            ckey = (what, str(spec), kint)
-            fin = bool(np.all(np.isfinite(xi)) and math.isfinite(lpi))
-            unit.count(ckey, nontrivial=fin if what == "samplelp" else nest >= 2, tag=f"nest{nest}")
-            tolx = 1e-9 * np.maximum(1.0, np.abs(xi))
-            ok = _vec_close(xm, xi, tolx) and _close(lpm, lpi, _tol(lpi, 0.0)) and _vec_close(xs, xi, tolx)
+            if not _close(v, r, tol):
+                errs.append(f"log_prob(x) = {v!r} but base_dist.log_prob(bijection.inverse(x)) + inverse log-det = {r!r} at x = {np.ravel(x).tolist()}")
+            if not _close(mv, v, tol) or errs:
+                _viol(ctx, u1, "logp", spec, errs, f"log_prob: model {mv!r} != implementation {v!r} on {shp} at x={np.ravel(x).tolist()}", mv, v,
+                      "correspondence with Model/Dist.v logp / theorem C03_logp_transformed", x=xh)
             errs = []
-            if fin:
-                lpx, sens = logp_with_sensitivity(obj, xi)
-                uo.count(ckey, nontrivial=True, tag="lp(sample)=log_prob(sample)")
-                if not _close(lpi, lpx, _tol(lpx, sens, 1e-7)):
-                    errs.append(f"sample_and_log_prob(key) returned log-prob {lpi!r} but log_prob(sample) = {lpx!r}")
-                if not _vec_close(xs, xi, 1e-12 * np.maximum(1.0, np.abs(xi))):
-                    errs.append(f"sample(key) = {xs.tolist()} differs from the point of sample_and_log_prob(key) = {xi.tolist()}")
-                zz = jnp.asarray(ds.base_draw(d, key_)).reshape(d.shape)
-                pushed = np.asarray(obj.bijection.transform(obj.base_dist.sample(key_)), dtype=float)
-                if not _vec_close(xs, pushed, tolx):
-                    errs.append(f"sample(key) = {xs.tolist()} is not bijection.transform(base_dist.sample(key)) = {pushed.tolist()}")
-            if not ok or errs:
-                unit.disagreements += (not ok)
-                ctx.violation(
-                    sig=f"{what}:{'oracle' if errs else 'model-mismatch'}",
-                    what="; ".join(errs) if errs else f"{what}: model ({xm.tolist()}, {lpm!r}) != implementation sample_and_log_prob ({xi.tolist()}, {lpi!r}), "
-                                                      f"sample {xs.tolist()} on {ds.shape_of_term(t.split(' '))} key {kint}",
-                    case=_case(spec, unit=what, key=kint), found_input=bool(errs), unit=unit.name, expected=[xm.tolist(), lpm], observed=[xi.tolist(), lpi],
-                    broken="correspondence with Model/Dist.v sample_lp / theorem C03_sample_lp_consistent",
-                    reproducer="cd /verif && ./check C03 --replay <this file>")
-        else:  # mstruct
-            try:
-                real = ds.shape_of_term(ds.ser_dist(dm))
-            except ds.Unsupported as e:
-                real = f"unsupported:{e}"
-            u3.count(("mstruct", str(spec)), nontrivial=nest >= 2, tag=f"struct:nest{nest}")
-            if real != line:
-                u3.disagreements += 1
-                ctx.violation(sig="merge_transforms:structure", what=f"merge_transforms(): model term {line} != real merged object {real}",
-                              case=_case(spec, unit="mstruct"), found_input=False, unit=u3.name, expected=line, observed=real,
-                              broken="correspondence with Model/Dist.v merge_transforms")
+            if not _close(vm, v, tol):
+                errs.append(f"merge_transforms().log_prob(x) = {vm!r} but the original log_prob(x) = {v!r} at x = {np.ravel(x).tolist()}")
+            if not _close(mvm, vm, tol) or errs:
+                _viol(ctx, u3, "mlogp", spec, errs, f"merge_transforms().log_prob: model {mvm!r} != implementation {vm!r} on {shp}", mvm, vm,
+                      "correspondence with Model/Dist.v merge_transforms / theorem C03_merge_transforms_same", x=xh)
+        # ---- sampling paths
+        for j, (kint, z) in enumerate(zip(keys, zs)):
+            for what, unit, (xi, lpi, xsamp, pushed, lpsn) in (("samplelp", u2, (S[j], float(LPS[j]), S2[j], P[j], LPSN[j])),
+                                                                ("msamplelp", u3, (Sm[j], float(LPSm[j]), S2m[j], Pm[j], LPSNm[j]))):
+                line = outs[pos]
+                pos += 1
+                xs_m, lp_m = line.split(" ")
+                xm = np.array([fparse(v) for v in xs_m.split(",")], dtype=float)
+                lpm = fparse(lp_m)
+                xi, xsamp, pushed = np.ravel(xi), np.ravel(xsamp), np.ravel(pushed)
+                ckey = (what, str(spec), kint)
+                fin = bool(np.all(np.isfinite(xi)) and math.isfinite(lpi))
+                unit.count(ckey, nontrivial=fin if what == "samplelp" else nest >= 2, tag=f"sample:nest{nest}")
+                tolx = 1e-9 * np.maximum(1.0, np.abs(xi))
+                ok = _vec_close(xm, xi, tolx) and _close(lpm, lpi, _tol(lpi, 0.0)) and _vec_close(xsamp, xi, tolx)
+                errs = []
+                if fin:
+                    lpx, se = float(lpsn[0]), _sens(lpsn)
+                    uo.count(("id3",) + ckey, nontrivial=True, tag="lp(sample)=log_prob(sample)")
+                    if not _close(lpi, lpx, _tol(lpx, se, 1e-7)):
+                        errs.append(f"sample_and_log_prob(key) returned log-prob {lpi!r} but log_prob(sample) = {lpx!r}")
+                    if not _vec_close(xsamp, xi, 1e-12 * np.maximum(1.0, np.abs(xi))):
+                        errs.append(f"sample(key) = {xsamp.tolist()} differs from the point of sample_and_log_prob(key) = {xi.tolist()}")
+                    uo.count(("id2",) + ckey, nontrivial=True, tag="sample=transform(base.sample)")
+                    if not _vec_close(xsamp, pushed, tolx):
+                        errs.append(f"sample(key) = {xsamp.tolist()} is not bijection.transform(base_dist.sample(key)) = {pushed.tolist()}")
+                if not ok or errs:
+                    _viol(ctx, unit, what, spec, errs, f"{what}: model ({xm.tolist()}, {lpm!r}) != implementation sample_and_log_prob ({xi.tolist()}, {lpi!r}), "
+                          f"sample {xsamp.tolist()} on {shp} key {kint}", [xm.tolist(), lpm], [xi.tolist(), lpi],
+                          "correspondence with Model/Dist.v sample_lp / theorem C03_sample_lp_consistent", key=kint)
+        # ---- structure of the merged object
+        line = outs[pos]
+        try:
+            real = ds.shape_of_term(ds.ser_dist(dm))
+        except ds.Unsupported as e:
+            real = f"unsupported:{e}"
+        u3.count(("mstruct", str(spec)), nontrivial=nest >= 2, tag=f"struct:nest{nest}")
+        if real != line:
+            u3.disagreements += 1
+            ctx.violation(sig="merge_transforms:structure", what=f"merge_transforms(): model term {line} != real merged object {real}",
+                          case=_case(spec, unit="mstruct"), found_input=False, unit=u3.name, expected=line, observed=real,
+                          broken="correspondence with Model/Dist.v merge_transforms")
 
 
-# ------------------------------------------------------------------ U4 factory orientation on the covered factory
+# ------------------------------------------------------------------ flows: one jitted evaluation per flow
 def _strip_invert(b):
     B = lv.lib()["B"]
     u = lv.lib()["unwrap"](b)
     return (u.bijection, True) if type(u) is B.Invert else (u, False)
 
 
-def unit_factory(ctx):
+_EVAL = {}
+
+
+def _flow_eval():
+    """eqx.filter_jit'ed evaluation of everything the identities need (one compilation per flow)."""
+    if "f" in _EVAL:
+        return _EVAL["f"]
+    L = lv.lib()
+    eqx, jnp, jax = L["eqx"], L["jnp"], L["jax"]
+
+    def nbrs(x):  # x and its one-ulp neighbours, stacked on a new leading axis (any shape)
+        shp = x.shape
+        x = x.reshape(-1)
+        n = x.shape[0]
+        eye = jnp.eye(n, dtype=bool)
+        up = jnp.where(eye, jnp.nextafter(x, jnp.inf)[None, :], x[None, :])
+        dn = jnp.where(eye, jnp.nextafter(x, -jnp.inf)[None, :], x[None, :])
+        return jnp.concatenate([x[None, :], up, dn]).reshape((2 * n + 1,) + shp)
+
+    @eqx.filter_jit
+    def f(flow, X, c, keys):
+        bc = c if flow.bijection.cond_shape is not None else None
+        dc = c if flow.base_dist.cond_shape is not None else None
+        lpN = jax.vmap(lambda x: flow.log_prob(nbrs(x), c))(X)                      # (m, 2d+1)
+        Z, LD = jax.vmap(lambda x: flow.bijection.inverse_and_log_det(x, bc))(X)
+        rhs = flow.base_dist.log_prob(Z, dc) + LD
+
+        def per_key(key):
+            s, lps = flow.sample_and_log_prob(key, (), c)
+            s2 = flow.sample(key, (), c)
+            pushed = flow.bijection.transform(flow.base_dist.sample(key, (), dc), bc)
+            return s, lps, s2, pushed, flow.log_prob(nbrs(s), c)
+        S, LPS, S2, P, LPSN = jax.vmap(per_key)(keys)
+        return lpN, rhs, LD, S, LPS, S2, P, LPSN
+
+    _EVAL["f"] = f
+    return f
+
+
+def _sens(row):
+    with np.errstate(invalid="ignore"):
+        d = np.abs(row[1:] - row[0])
+    d = d[np.isfinite(d)]
+    return float(np.max(d)) if d.size else 0.0
+
+
+def eval_dist(d, X, c, kints):
     L = lv.lib()
     jnp, jr = L["jnp"], L["jr"]
-    rng = ctx.rng
-    u4 = ctx.unit("factory-tie", "triangular_spline_flow dims 1-3 x invert x condition: log_prob / sample_and_log_prob vs the model term "
-                                 "Transformed(N, Invert(Chain layers)) resp. Transformed(N, Chain layers) built from the flow's layers and the "
-                                 "orientation the documentation of `invert` prescribes; non-trivial = perturbed parameters, finite value")
-    jobs, reqs = [], []
-    for name, dim, cond, inv, flow, tol, kint in ds.flows(ctx, dims=(1, 2, 3), conds=(None, 2), bnaf=False):
-        if name != "triangular-spline":
-            continue
-        c = None if cond is None else jnp.asarray(rng.normal(0, 1, cond))
+    keys = jnp.stack([jr.PRNGKey(k) for k in kints])
+    return [np.asarray(a, dtype=float) for a in _flow_eval()(d, jnp.asarray(X), c, keys)]
+
+
+def flow_identities(flow, X, c, kints, tol):
+    """The property's statement on one flow, implementation only: list of (error string, input dict)."""
+    lpN, rhs, LD, S, LPS, S2, P, LPSN = eval_dist(flow, X, c, kints)
+    errs = []
+    for i in range(len(X)):
+        lp, r = float(lpN[i, 0]), _to_minf(float(rhs[i]))
+        if not _close(lp, r, _tol(lp, _sens(lpN[i]), tol)):
+            errs.append((f"log_prob(x) = {lp!r} but base_dist.log_prob(bijection.inverse(x)) + inverse log-det = {r!r} at x = {np.ravel(X[i]).tolist()}",
+                         dict(x=[fhex(v) for v in np.ravel(X[i])])))
+    for j, k in enumerate(kints):
+        s, lps = S[j], float(LPS[j])
+        tolx = max(tol, 1e-9) * np.maximum(1.0, np.abs(s))
+        if np.all(np.isfinite(s)) and math.isfinite(lps):
+            lp2 = float(LPSN[j, 0])
+            if not _close(lps, lp2, _tol(lp2, _sens(LPSN[j]), tol)):
+                errs.append((f"sample_and_log_prob(key) returned log-prob {lps!r} but log_prob(sample) = {lp2!r} (sample {s.tolist()}, key {k})", dict(key=k)))
+        if not _vec_close(S2[j], s, tolx):
+            errs.append((f"sample(key) = {S2[j].tolist()} but sample_and_log_prob(key) returned the point {s.tolist()} (key {k})", dict(key=k)))
+        if not _vec_close(S2[j], P[j], tolx):
+            errs.append((f"sample(key) = {S2[j].tolist()} is not bijection.transform(base_dist.sample(key)) = {P[j].tolist()} (key {k})", dict(key=k)))
+    return errs, dict(lp=lpN[:, 0], ld=LD, S=S, LPS=LPS, sens=[_sens(r) for r in lpN])
+
+
+def _flow_case(ctx, uf, name, dim, cond, inv, flow, tol, kint, rng, nx, nk, u4=None, jobs=None, reqs=None):
+    """identities on one flow (+ for the covered factory: queue the model requests of the factory tie)."""
+    L = lv.lib()
+    jnp, B = L["jnp"], L["B"]
+    X = rng.normal(0, 1.5, (nx, dim))
+    c = None if cond is None else jnp.asarray(rng.normal(0, 1, cond))
+    kints = [int(rng.integers(0, 2**31)) for _ in range(nk)]
+    meta = dict(flow=name, dim=dim, cond=None if c is None else [fhex(v) for v in np.ravel(c)], invert=inv, factory_key=kint)
+    res = None
+    try:
+        errs, res = flow_identities(flow, X, c, kints, tol)
+        if (type(L["unwrap"](flow.bijection)) is B.Invert) != inv:
+            errs.append((f"invert={inv} but flow.bijection is {type(flow.bijection).__name__}: the orientation does not follow the `invert` argument", {}))
+    except Exception as e:
+        errs = [(f"raised {type(e).__name__}: {str(e)[:200]}", dict(x=[fhex(v) for v in X[0]], key=kints[0]))]
+    for i in range(nx):
+        uf.count(str((meta, X[i].tolist())), nontrivial=res is not None and math.isfinite(float(res["lp"][i])) and abs(float(res["ld"][i])) > 1e-3,
+                 tag=f"{name}:inv{inv}:cond{cond is not None}:logp")
+    for k in kints:
+        uf.count(str((meta, k)), nontrivial=res is not None, tag=f"{name}:inv{inv}:cond{cond is not None}:sample")
+    for msg, inp in errs[:1]:
+        case = dict(meta, x=[fhex(v) for v in X[0]], key=kints[0])
+        case.update(inp)
+        ctx.violation(sig=f"flow:{name}:invert={inv}:cond={cond is not None}:{msg.split(' ')[0]}", what=f"{name} dim {dim} invert={inv} cond={cond}: " + "; ".join(m for m, _ in errs[:3]),
+                      case=case, found_input=True, unit=uf.name, expected="identities of the statement", observed=[m for m, _ in errs[:5]],
+                      broken="change-of-variables identities on the implementation", reproducer="cd /verif && ./check C03 --replay <this file>")
+    if u4 is not None and name == "triangular-spline" and res is not None:
         inner, has_inv = _strip_invert(flow.bijection)
         try:
             layers = ds.ser_bij(inner, c)
         except ds.Unsupported as e:
             ctx.notes.append(f"factory-tie: {name} not serialisable: {e}")
-            continue
+            return
         t = " ".join(["T", "N"] + (["I"] if inv else []) + layers)  # orientation from the ARGUMENT, not from the object
-        meta = dict(flow=name, dim=dim, cond=None if c is None else [fhex(v) for v in np.ravel(c)], invert=inv, factory_key=kint)
-        for _ in range(3 if ctx.quick else 10):
-            x = rng.normal(0, 1.5, (dim,))
-            jobs.append(("logp", flow, c, meta, x, has_inv))
-            reqs.append(f"logp {hexlist(x)} {t}")
-        for _ in range(2 if ctx.quick else 6):
-            k = int(rng.integers(0, 2**31))
-            z = ds.base_draw(flow, jr.PRNGKey(k))
-            jobs.append(("samplelp", flow, c, meta, (k, z), has_inv))
+        for i in range(nx):
+            jobs.append(("logp", meta, X[i], float(res["lp"][i]), res["sens"][i]))
+            reqs.append(f"logp {hexlist(X[i])} {t}")
+        for j, k in enumerate(kints):
+            z = ds.base_draw(flow, L["jr"].PRNGKey(k))
+            jobs.append(("samplelp", meta, (k, z), (res["S"][j], float(res["LPS"][j])), 0.0))
             reqs.append(f"samplelp {hexlist(z)} {t}")
+
+
+def unit_flows(ctx):
+    L = lv.lib()
+    rng = ctx.rng
+    uf = ctx.unit("flows-oracle", "flow factories (quick: stratified subset rotating with the seed; thorough: every factory x dims 1-3 x invert "
+                                  "True/False x conditional/unconditional), parameters perturbed N(0,0.4^2): log_prob = base.log_prob(inverse) + ld; "
+                                  "log-prob returned with a sample = log_prob(sample); sample(key) = transform(base.sample(key)); bijection is an "
+                                  "Invert iff invert=True; 1e-7 relative + measured conditioning (bisection-inverted BNAF 2e-4); non-trivial = "
+                                  "finite log_prob with |log-det| > 1e-3")
+    u4 = ctx.unit("factory-tie", "triangular_spline_flow (the factory the expression language covers end to end): log_prob / sample_and_log_prob "
+                                 "vs the model term Transformed(N, Invert(Chain layers)) resp. Transformed(N, Chain layers) built from the flow's "
+                                 "layers and the orientation the documentation of `invert` prescribes; non-trivial = finite value")
+    names = [n for n in ds.FACTORIES if n != "bnaf"]
+    if ctx.quick:
+        configs = ds.quick_configs(ctx.seed, names) + [("triangular-spline", 1 + (ctx.seed + 2) % 3, None, False), ("triangular-spline", 1 + ctx.seed % 3, 2, True)]
+        bnaf_cfg = ds.quick_configs(ctx.seed, ds.FACTORIES)[-2:]
+    else:
+        configs = ds.all_configs(names)
+        bnaf_cfg = ds.all_configs(("bnaf",))
+    payload = dict(seed=int(rng.integers(0, 2**31)), quick=ctx.quick, configs=bnaf_cfg)
+    # BNAF needs a numerically inverted direction on one of the two paths (never returns for a bounded layer): separate
+    # process under a wall-clock guard, started first so that it runs beside the other factories
+    guard = ds.start_guarded("c03", "bnaf_worker", payload)
+    jobs, reqs = [], []
+    for name, dim, cond, inv, flow, tol, kint in ds.flows(ctx, configs):
+        _flow_case(ctx, uf, name, dim, cond, inv, flow, tol, kint, rng, 3 if ctx.quick else 6, 2 if ctx.quick else 4, u4, jobs, reqs)
     outs = ctx.model(reqs, "dist")
-    for (what, flow, c, meta, a, has_inv), line in zip(jobs, outs):
-        bad = None
-        if has_inv != meta["invert"]:
-            bad = f"invert={meta['invert']} but flow.bijection is {'an Invert' if has_inv else 'not an Invert'}"
+    for (what, meta, a, impl, sens), line in zip(jobs, outs):
+        tag = f"dim{meta['dim']}:inv{meta['invert']}:cond{meta['cond'] is not None}"
         if what == "logp":
-            x = a
-            iv, sens = logp_with_sensitivity(flow, x, c)
             mv = _to_minf(fparse(line)) if not line.startswith("ERR") else float("nan")
-            u4.count((what, str(meta), [fhex(v) for v in x]), nontrivial=math.isfinite(iv), tag=f"dim{meta['dim']}:inv{meta['invert']}:cond{c is not None}")
-            ok = _close(mv, iv, _tol(iv, sens))
-            obs, exp = iv, mv
+            u4.count((what, str(meta), [fhex(v) for v in a]), nontrivial=math.isfinite(impl), tag=tag)
+            ok, exp, obs = _close(mv, impl, _tol(impl, sens)), mv, impl
         else:
             k, z = a
-            xi, lpi = flow.sample_and_log_prob(jr.PRNGKey(k), (), c)
-            xi, lpi = np.asarray(xi, dtype=float), float(lpi)
-            u4.count((what, str(meta), k), nontrivial=math.isfinite(lpi), tag=f"dim{meta['dim']}:inv{meta['invert']}:cond{c is not None}")
+            xi, lpi = impl
+            u4.count((what, str(meta), k), nontrivial=math.isfinite(lpi), tag=tag)
             if line.startswith("ERR"):
                 ok, exp = False, line
             else:
-                xs_m, lp_m = line.split(" ")
-                xm = np.array([fparse(v) for v in xs_m.split(",")], dtype=float)
-                ok = _vec_close(xm, xi, 1e-8 * np.maximum(1.0, np.abs(xi))) and _close(fparse(lp_m), lpi, 1e-8 * max(1.0, abs(lpi)))
-                exp = [xm.tolist(), fparse(lp_m)]
-            obs = [xi.tolist(), lpi]
-        if not ok or bad:
+                xm = np.array([fparse(v) for v in line.split(" ")[0].split(",")], dtype=float)
+                ok = _vec_close(xm, xi, 1e-8 * np.maximum(1.0, np.abs(xi))) and _close(fparse(line.split(" ")[1]), lpi, 1e-8 * max(1.0, abs(lpi)))
+                exp = [xm.tolist(), fparse(line.split(" ")[1])]
+            obs = [np.asarray(xi).tolist(), lpi]
+        if not ok:
             u4.disagreements += 1
             ctx.violation(sig=f"factory:{meta['flow']}:invert={meta['invert']}:{what}",
-                          what=bad or f"{meta['flow']} dim {meta['dim']} invert={meta['invert']}: {what} model {exp} != implementation {obs}",
+                          what=f"{meta['flow']} dim {meta['dim']} invert={meta['invert']}: {what} model {exp} != implementation {obs}",
                           case=dict(meta, unit=what, arg=[fhex(v) for v in np.ravel(a if what == 'logp' else a[1])]), found_input=False, unit=u4.name,
                           expected=exp, observed=obs, broken="theorem C03_factory_orientation_invert/_plain on the serialised term")
-
-
-# ------------------------------------------------------------------ search oracle on every factory
-def flow_identities(flow, x, c, key, tol):
-    """The property's statement on one flow, implementation only.  Returns list of error strings."""
-    L = lv.lib()
-    jnp = L["jnp"]
-    errs = []
-    bc = c if flow.bijection.cond_shape is not None else None
-    dc = c if flow.base_dist.cond_shape is not None else None
-    lp, sens = logp_with_sensitivity(flow, x, c)
-    z, ld = flow.bijection.inverse_and_log_det(jnp.asarray(x), bc)
-    rhs = _to_minf(float(flow.base_dist.log_prob(z, dc)) + float(ld))
-    if not _close(lp, rhs, _tol(lp, sens, tol)):
-        errs.append(f"log_prob(x) = {lp!r} but base_dist.log_prob(bijection.inverse(x)) + inverse log-det = {rhs!r} at x = {np.ravel(x).tolist()}")
-    s, lps = flow.sample_and_log_prob(key, (), c)
-    s, lps = np.asarray(s, dtype=float), float(lps)
-    if np.all(np.isfinite(s)) and math.isfinite(lps):
-        lp2, sens2 = logp_with_sensitivity(flow, s, c)
-        if not _close(lps, lp2, _tol(lp2, sens2, tol)):
-            errs.append(f"sample_and_log_prob(key) returned log-prob {lps!r} but log_prob(sample) = {lp2!r} (sample {s.tolist()})")
-    s2 = np.asarray(flow.sample(key, (), c), dtype=float)
-    tolx = max(tol, 1e-9) * np.maximum(1.0, np.abs(s))
-    if not _vec_close(s2, s, tolx):
-        errs.append(f"sample(key) = {s2.tolist()} but sample_and_log_prob(key) returned the point {s.tolist()}")
-    pushed = np.asarray(flow.bijection.transform(flow.base_dist.sample(key, (), dc), bc), dtype=float)
-    if not _vec_close(s2, pushed, tolx):
-        errs.append(f"sample(key) = {s2.tolist()} is not bijection.transform(base_dist.sample(key)) = {pushed.tolist()}")
-    return errs
-
-
-def unit_flows_oracle(ctx):
-    L = lv.lib()
-    jnp, jr = L["jnp"], L["jr"]
-    rng = ctx.rng
-    uf = ctx.unit("flows-oracle", "every flow factory x dims 1-3 x invert True/False x conditional/unconditional, parameters perturbed N(0,0.4^2): "
-                                  "log_prob = base.log_prob(inverse) + ld; log-prob returned with a sample = log_prob(sample); sample(key) = "
-                                  "transform(base.sample(key)); 1e-7 relative + measured conditioning (bisection-inverted BNAF 2e-4); "
-                                  "non-trivial = finite values")
-    payload = dict(seed=int(rng.integers(0, 2**31)), quick=ctx.quick)
-    # BNAF needs a numerically inverted direction in one of the two paths: run under a wall-clock guard (separate process)
-    res = ds.run_guarded("c03", "bnaf_worker", payload, timeout=150 if ctx.quick else 900)
+    unit_orientation_oracle(ctx)
+    unit_cond_routing(ctx)
+    res = ds.finish_guarded(guard, timeout=(170 if ctx.quick else 1500))
     if res.get("timeout"):
-        ctx.violation(sig="flows-oracle:bnaf:timeout", what="the BNAF identities did not return within the wall-clock guard (a numerically inverted "
+        ctx.violation(sig="flows-oracle:bnaf:timeout", what="the BNAF identities did not return within the wall-clock guard (numerical inversion of a "
                       "bounded layer never returns)", case=payload, found_input=False, unit=uf.name, broken="flows-oracle (BNAF)")
     elif "error" in res:
         ctx.violation(sig="flows-oracle:bnaf:crash", what="BNAF oracle worker crashed: " + res["error"][-400:], case=payload, found_input=False, unit=uf.name)
@@ -409,64 +491,32 @@ def unit_flows_oracle(ctx):
             uf.count(k, nontrivial=nt, tag=tag)
         for v in res["violations"]:
             ctx.violation(unit=uf.name, found_input=True, **v)
-    dims = (1, 2, 3)
-    for name, dim, cond, inv, flow, tol, kint in ds.flows(ctx, dims=dims, conds=(None, 2), bnaf=False):
-        for rep in range(2 if ctx.quick else 6):
-            x = rng.normal(0, 1.5, (dim,))
-            c = None if cond is None else jnp.asarray(rng.normal(0, 1, cond))
-            k = int(rng.integers(0, 2**31))
-            meta = dict(flow=name, dim=dim, cond=None if c is None else [fhex(v) for v in np.ravel(c)], invert=inv, factory_key=kint,
-                        x=[fhex(v) for v in x], key=k)
-            try:
-                errs = flow_identities(flow, x, c, jr.PRNGKey(k), tol)
-            except Exception as e:
-                errs = [f"raised {type(e).__name__}: {str(e)[:200]}"]
-            uf.count(str(meta), nontrivial=not errs, tag=f"{name}:inv{inv}:cond{cond is not None}")
-            if errs:
-                ctx.violation(sig=f"flow:{name}:invert={inv}:cond={cond is not None}:{errs[0].split(' ')[0]}", what=f"{name} dim {dim} invert={inv} cond={cond}: " + "; ".join(errs),
-                              case=meta, found_input=True, unit=uf.name, expected="identities of the statement", observed=errs,
-                              broken="change-of-variables identities on the implementation")
-        # the two orientations built from the same key share their layers: invert=True evaluates densities through the
-        # layers' forward maps (documentation of `invert`)
-    unit_orientation_oracle(ctx)
-    unit_cond_routing(ctx)
+        ctx.notes += res.get("notes", [])
 
 
 def bnaf_worker(payload):
-    """Runs in a separate process (wall-clock guarded): BNAF identities, both orientations."""
-    from harness import common
-
-    L = lv.lib()
-    jnp, jr = L["jnp"], L["jr"]
-
+    """Runs in a separate process (wall-clock guarded): BNAF identities."""
     class C:
         pass
+
+    class U:
+        def __init__(self):
+            self.counts = []
+            self.name = "flows-oracle"
+
+        def count(self, k, nontrivial=True, tag=None):
+            self.counts.append([k, bool(nontrivial), tag])
 
     ctx = C()
     ctx.rng = np.random.default_rng(np.random.PCG64(payload["seed"]))
     ctx.quick = payload["quick"]
     ctx.notes = []
-    counts, violations = [], []
-    dims = (2,) if ctx.quick else (1, 2, 3)
-    conds = (None,) if ctx.quick else (None, 2)
-    for name, dim, cond, inv, flow, tol, kint in ds.flows(ctx, dims=dims, conds=conds, bnaf=True):
-        if name != "bnaf":
-            continue
-        for rep in range(1 if ctx.quick else 3):
-            x = ctx.rng.normal(0, 1.0, (dim,))
-            c = None if cond is None else jnp.asarray(ctx.rng.normal(0, 1, cond))
-            k = int(ctx.rng.integers(0, 2**31))
-            meta = dict(flow=name, dim=dim, cond=None if c is None else [fhex(v) for v in np.ravel(c)], invert=inv, factory_key=kint,
-                        x=[fhex(v) for v in x], key=k)
-            try:
-                errs = flow_identities(flow, x, c, jr.PRNGKey(k), tol)
-            except Exception as e:
-                errs = [f"raised {type(e).__name__}: {str(e)[:200]}"]
-            counts.append([str(meta), not errs, f"bnaf:inv{inv}:cond{cond is not None}"])
-            if errs:
-                violations.append(dict(sig=f"flow:bnaf:invert={inv}:{errs[0].split(' ')[0]}", what=f"bnaf dim {dim} invert={inv} cond={cond}: " + "; ".join(errs),
-                                       case=meta, expected="identities of the statement", observed=errs, broken="change-of-variables identities on the implementation"))
-    return dict(counts=counts, violations=violations)
+    viol = []
+    ctx.violation = lambda **kw: viol.append({k: v for k, v in kw.items() if k not in ("unit", "found_input")})
+    uf = U()
+    for name, dim, cond, inv, flow, tol, kint in ds.flows(ctx, [tuple(c) for c in payload["configs"]]):
+        _flow_case(ctx, uf, name, dim, cond, inv, flow, tol, kint, ctx.rng, 2 if ctx.quick else 4, 1 if ctx.quick else 3)
+    return dict(counts=uf.counts, violations=viol, notes=ctx.notes)
 
 
 def unit_orientation_oracle(ctx):
@@ -475,40 +525,36 @@ def unit_orientation_oracle(ctx):
     where `layers` is the bijection of the invert=False flow."""
     L = lv.lib()
     jnp, jr, B = L["jnp"], L["jr"], L["B"]
-    import flowjax.flows as F
     from flowjax.distributions import StandardNormal
 
     rng = ctx.rng
     uo = ctx.unit("orientation-oracle", "factory(key, invert=True).log_prob(x) == base.log_prob(y) + ld, (y, ld) = factory(key, invert=False)"
-                                        ".bijection.transform_and_log_det(x); and isinstance(bijection, Invert) == invert; all factories, dims 1-3")
-    for dim in (1, 2, 3):
+                                        ".bijection.transform_and_log_det(x); quick: two factories rotating with the seed; thorough: all x dims 1-3")
+    names = [n for n in ds.FACTORIES if n != "bnaf"]
+    if ctx.quick:
+        todo = [(names[(ctx.seed + i) % len(names)], 1 + (ctx.seed + i) % 3) for i in (0, 2)]
+    else:
+        todo = [(n, d) for n in ds.FACTORIES for d in (1, 2, 3)]
+    for name, dim in todo:
+        if name == "coupling" and dim == 1:
+            dim = 2
         base = StandardNormal((dim,))
-        facs = {
-            "coupling": (lambda k, inv: F.coupling_flow(k, base_dist=base, flow_layers=2, nn_width=6, invert=inv)) if dim > 1 else None,
-            "maf": lambda k, inv: F.masked_autoregressive_flow(k, base_dist=base, flow_layers=2, nn_width=6, invert=inv),
-            "planar": lambda k, inv: F.planar_flow(k, base_dist=base, flow_layers=2, invert=inv, negative_slope=0.3),
-            "triangular-spline": lambda k, inv: F.triangular_spline_flow(k, base_dist=base, flow_layers=2, knots=3, invert=inv),
-            "bnaf": lambda k, inv: F.block_neural_autoregressive_flow(k, base_dist=base, nn_block_dim=2, invert=inv),
-        }
-        for name, f in facs.items():
-            if f is None:
-                continue
-            kint = int(rng.integers(0, 2**31))
-            ft, ff = f(jr.PRNGKey(kint), True), f(jr.PRNGKey(kint), False)
-            x = rng.normal(0, 1.0, (dim,))
-            y, ld = ff.bijection.transform_and_log_det(jnp.asarray(x))
-            rhs = float(base.log_prob(y)) + float(ld)
-            lhs = float(ft.log_prob(jnp.asarray(x)))
-            meta = dict(flow=name, dim=dim, factory_key=kint, x=[fhex(v) for v in x])
-            uo.count(str(meta), nontrivial=abs(float(ld)) > 1e-6, tag=name)
-            errs = []
-            if not _close(lhs, rhs, 1e-8 * max(1.0, abs(rhs))):
-                errs.append(f"invert=True log_prob(x) = {lhs!r}, layers' forward map + log-det gives {rhs!r}")
-            if type(L["unwrap"](ft.bijection)) is not B.Invert or type(L["unwrap"](ff.bijection)) is B.Invert:
-                errs.append("isinstance(flow.bijection, Invert) does not follow the `invert` argument")
-            if errs:
-                ctx.violation(sig=f"orientation:{name}", what=f"{name} dim {dim}: " + "; ".join(errs), case=meta, found_input=True, unit=uo.name,
-                              expected=rhs, observed=lhs, broken="theorem C03_factory_orientation_invert (documented orientation of invert=True)")
+        kint = int(rng.integers(0, 2**31))
+        ft, ff = ds.build_flow(name, dim, None, True, kint), ds.build_flow(name, dim, None, False, kint)
+        x = rng.normal(0, 1.0, (dim,))
+        y, ld = ff.bijection.transform_and_log_det(jnp.asarray(x))
+        rhs = float(base.log_prob(y)) + float(ld)
+        lhs = float(ft.log_prob(jnp.asarray(x)))
+        meta = dict(flow=name, dim=dim, factory_key=kint, x=[fhex(v) for v in x], orientation_pair=True)
+        uo.count(str(meta), nontrivial=abs(float(ld)) > 1e-6, tag=name)
+        errs = []
+        if not _close(lhs, rhs, 1e-8 * max(1.0, abs(rhs))):
+            errs.append(f"invert=True log_prob(x) = {lhs!r}, layers' forward map + log-det gives {rhs!r}")
+        if type(L["unwrap"](ft.bijection)) is not B.Invert or type(L["unwrap"](ff.bijection)) is B.Invert:
+            errs.append("isinstance(flow.bijection, Invert) does not follow the `invert` argument")
+        if errs:
+            ctx.violation(sig=f"orientation:{name}", what=f"{name} dim {dim}: " + "; ".join(errs), case=meta, found_input=True, unit=uo.name,
+                          expected=rhs, observed=lhs, broken="theorem C03_factory_orientation_invert (documented orientation of invert=True)")
 
 
 def unit_cond_routing(ctx):
@@ -522,9 +568,9 @@ def unit_cond_routing(ctx):
     rng = ctx.rng
     uc = ctx.unit("cond-routing-oracle", "Transformed(conditional base, unconditional bijection) / (unconditional base, conditional bijection) / "
                                          "(both): cond_shape merged, identities hold with the condition given to whichever part is conditional, "
-                                         "and the density really depends on the condition")
-    for rep in range(2 if ctx.quick else 8):
-        dim = int(rng.integers(1, 4))
+                                         "the base's conditional density is what enters, and the density really depends on the condition")
+    for rep in range(1 if ctx.quick else 8):
+        dim = 1 + (ctx.seed + rep) % 3
         k1, k2 = jr.split(jr.PRNGKey(int(rng.integers(0, 2**31))))
         cbase = fc.perturb(F.masked_autoregressive_flow(k1, base_dist=StandardNormal((dim,)), cond_dim=2, flow_layers=1, nn_width=6), rng, 0.5)
         ubij = eqx.tree_at(lambda a: a.scale, B.Affine(jnp.asarray(rng.normal(0, 1, dim)), jnp.ones(dim)),
@@ -536,34 +582,31 @@ def unit_cond_routing(ctx):
         for name, d in combos:
             x = rng.normal(0, 1.2, (dim,))
             c = jnp.asarray(rng.normal(0, 1, 2))
-            c2 = c + 1.0
             k = int(rng.integers(0, 2**31))
             meta = dict(combo=name, dim=dim, x=[fhex(v) for v in x], cond=[fhex(v) for v in np.ravel(c)], key=k)
             errs = []
             try:
                 if d.cond_shape != (2,):
                     errs.append(f"cond_shape {d.cond_shape} != (2,)")
-                errs += flow_identities(d, x, c, jr.PRNGKey(k), 1e-7)
-                a, b = float(d.log_prob(jnp.asarray(x), c)), float(d.log_prob(jnp.asarray(x), c2))
+                errs += [m for m, _ in flow_identities(d, x[None, :], c, [k], 1e-7)[0]]
+                a, b = float(d.log_prob(jnp.asarray(x), c)), float(d.log_prob(jnp.asarray(x), c + 1.0))
                 if a == b:
                     errs.append(f"log_prob(x, c) == log_prob(x, c + 1) == {a!r}: the condition does not reach the conditional part")
-                if "cond-base" in name and name.startswith("cond-base"):
-                    # the base's own conditional density must be what enters
+                if name.startswith("cond-base"):
                     z, ld = d.bijection.inverse_and_log_det(jnp.asarray(x), c if d.bijection.cond_shape is not None else None)
                     if not _close(a, float(cbase.log_prob(z, c)) + float(ld), 1e-8 * max(1.0, abs(a))):
-                        errs.append("log_prob(x, c) != base_dist.log_prob(z, c) + log-det")
+                        errs.append("log_prob(x, c) != base_dist.log_prob(z, c) + log-det with the base evaluated at the same condition")
             except Exception as e:
                 errs.append(f"raised {type(e).__name__}: {str(e)[:200]}")
             uc.count(str(meta), nontrivial=not errs, tag=name)
             if errs:
-                ctx.violation(sig=f"cond-routing:{name}:{errs[0].split(' ')[0]}", what=f"{name} dim {dim}: " + "; ".join(errs), case=meta, found_input=True,
-                              unit=uc.name, expected="condition routed to base and bijection", observed=errs, broken="cond routing (search oracle)")
+                ctx.violation(sig=f"cond-routing:{name}:{errs[0].split(' ')[0]}", what=f"{name} dim {dim}: " + "; ".join(errs[:3]), case=meta, found_input=True,
+                              unit=uc.name, expected="condition routed to base and bijection", observed=errs[:5], broken="cond routing (search oracle)")
 
 
 def run(ctx):
     unit_tie(ctx)
-    unit_factory(ctx)
-    unit_flows_oracle(ctx)
+    unit_flows(ctx)
     ctx.assumptions += [
         "jr.split / jr.normal / jr.gumbel are taken as given: the base draw fed to the model is read from the real innermost base on the same key path",
         "NaN -> -inf of AbstractDistribution.log_prob is applied to the model value on the harness side (modelled in C05)",
@@ -612,27 +655,15 @@ def replay(ctx, rep):
 
 
 def _replay_flow(c):
-    """Rebuilding a perturbed flow needs the run's rng stream; the factory itself is rebuilt UNPERTURBED from its key and the
-    identities are evaluated at the stored x / key / condition (a defect of the evaluation paths does not depend on the
-    perturbation)."""
+    """Rebuilding a perturbed flow needs the run's rng stream; the factory is rebuilt UNPERTURBED from its key and the identities
+    are evaluated at the stored x / key / condition (a defect of the evaluation paths does not depend on the perturbation)."""
     L = lv.lib()
-    jnp, jr, B = L["jnp"], L["jr"], L["B"]
-    import flowjax.flows as F
-    from flowjax.distributions import StandardNormal
-
-    dim, inv = c["dim"], c["invert"]
+    jnp = L["jnp"]
     cond = None if c.get("cond") is None else len(c["cond"])
-    base = StandardNormal((dim,))
-    k = jr.PRNGKey(c["factory_key"])
-    mk = {
-        "maf-affine": lambda: F.masked_autoregressive_flow(k, base_dist=base, cond_dim=cond, flow_layers=2, nn_width=8, invert=inv),
-        "maf-rqs": lambda: F.masked_autoregressive_flow(k, base_dist=base, cond_dim=cond, flow_layers=2, nn_width=8, invert=inv, transformer=B.RationalQuadraticSpline(knots=4, interval=3)),
-        "planar": lambda: F.planar_flow(k, base_dist=base, cond_dim=cond, flow_layers=2, negative_slope=0.2, invert=inv, **({} if cond is None else dict(width_size=8, depth=1))),
-        "triangular-spline": lambda: F.triangular_spline_flow(k, base_dist=base, cond_dim=cond, flow_layers=2, knots=4, invert=inv),
-        "coupling": lambda: F.coupling_flow(k, base_dist=base, cond_dim=cond, flow_layers=2, nn_width=8, invert=inv),
-        "bnaf": lambda: F.block_neural_autoregressive_flow(k, base_dist=base, cond_dim=cond, flow_layers=1, nn_block_dim=3, invert=inv),
-    }
-    flow = mk[c["flow"]]()
+    flow = ds.build_flow(c["flow"], c["dim"], cond, c["invert"], c["factory_key"])
     x = np.array([fparse(v) for v in c["x"]], dtype=float)
     cc = None if cond is None else jnp.asarray([fparse(v) for v in c["cond"]])
-    return flow_identities(flow, x, cc, jr.PRNGKey(c["key"]), 2e-4 if c["flow"] == "bnaf" else 1e-7)
+    errs = [m for m, _ in flow_identities(flow, x[None, :], cc, [c["key"]], ds.TOL.get(c["flow"], 1e-7))[0]]
+    if (type(L["unwrap"](flow.bijection)) is L["B"].Invert) != c["invert"]:
+        errs.append("orientation does not follow `invert`")
+    return errs
